@@ -1622,6 +1622,9 @@ class Interp:
                 return npm.slice_view(ctx, a, idx)
             if idx == slice(None):
                 return a
+            if a.ndim == 2:
+                # a[lo:hi] = a[lo:hi, :]  (view of whole rows)
+                return self.arr_getitem(a, (idx, slice(None)))
             raise Unsupported('slice of n-d array')
         if isinstance(idx, (int,)) or is_int_term(idx):
             if a.ndim == 1:
@@ -2435,4 +2438,4 @@ BUILTINS = {'locals', 'len', 'range', 'isinstance', 'abs', 'min', 'max', 'float'
             'getattr', 'hasattr', 'type', 'repr', 'id', 'callable', 'reversed', 'slice', 'iter',
             'next', 'frozenset', 'complex', 'round', 'divmod', 'issubclass', 'setattr', 'map',
             'old', 'implies', 'iff', 'ite', 'Sum', 'is_none', 'is_inf', 'is_nan', 'same_object',
-            'arr_eq', 'ghost', 'fp_finite', 'is_view', 'is_scalar', 'is_vector', 'approx', 'same_fp', 'same_fp_bool', 'exceeds', 'below', 'pow', 'floor', 'approx_h', 'atan2', 'floor_', 'le', 'log_', 'exp_', 'tanh_', 'namedtuple', 'is_integral'}
+            'arr_eq', 'ghost', 'fp_finite', 'is_view', 'is_scalar', 'is_vector', 'approx', 'same_fp', 'same_fp_bool', 'exceeds', 'below', 'pow', 'floor', 'approx_h', 'atan2', 'floor_', 'le', 'log_', 'exp_', 'tanh_', 'namedtuple', 'is_integral', 'shares_memory'}
